@@ -166,6 +166,8 @@ struct GuestSpec {
     own_stuff: bool,
     /// data segment, start function and a mutable global as well (own_stuff must be set)
     own_state: bool,
+    /// also import an unrelated memory (valid multi-memory guest)
+    foreign_memory: bool,
     memories: usize,
     module_name: String,
     /// override of one import's signature / name (single-defect variants)
@@ -187,6 +189,9 @@ fn build_guest(api: &[ApiFn], g: &GuestSpec) -> String {
         if g.foreign_between && pos == 0 {
             w.push_str("  (import \"env\" \"foreign2\" (func $foreign2))\n");
         }
+    }
+    if g.foreign_memory {
+        w.push_str("  (import \"env\" \"scratch\" (memory 1))\n");
     }
     if let Some((m, n)) = &g.extra_import {
         writeln!(w, "  (import \"{}\" \"{}\" (func $extra))", m, n).unwrap();
@@ -403,11 +408,11 @@ fn family(api: &[ApiFn]) -> Vec<(String, GuestSpec)> {
     vec![
         (
             "full surface, API order".into(),
-            GuestSpec { apis: all, foreign_first: false, foreign_between: false, own_stuff: false, memories: 1, module_name: API_MODULE.into(), own_state: false, bad_sig: None, extra_import: None },
+            GuestSpec { apis: all, foreign_first: false, foreign_between: false, own_stuff: false, memories: 1, module_name: API_MODULE.into(), own_state: false, foreign_memory: false, bad_sig: None, extra_import: None },
         ),
         (
             "permuted order, foreign imports, own code".into(),
-            GuestSpec { apis: perm, foreign_first: true, foreign_between: true, own_stuff: true, memories: 1, module_name: API_MODULE.into(), own_state: false, bad_sig: None, extra_import: None },
+            GuestSpec { apis: perm, foreign_first: true, foreign_between: true, own_stuff: true, memories: 1, module_name: API_MODULE.into(), own_state: false, foreign_memory: false, bad_sig: None, extra_import: None },
         ),
         (
             "two-import subset (log, output string)".into(),
@@ -417,6 +422,7 @@ fn family(api: &[ApiFn]) -> Vec<(String, GuestSpec)> {
                 foreign_between: false,
                 own_stuff: true,
                 own_state: false,
+                foreign_memory: false,
                 memories: 1,
                 module_name: API_MODULE.into(),
                 bad_sig: None,
@@ -444,6 +450,18 @@ fn cmd_glue(out: &str) -> Result<()> {
             .join(",\n"),
     );
     s.push_str("\n]\n\n");
+    for (lean, text) in [
+        ("nmReadStr", "shopify_function_input_read_utf8_str"),
+        ("nmGetProp", "shopify_function_input_get_obj_prop"),
+        ("nmOutStr", "shopify_function_output_new_utf8_str"),
+        ("nmIntern", "shopify_function_intern_utf8_str"),
+        ("nmLog", "shopify_function_log_new_utf8_str"),
+        ("nmAddr", "_shopify_function_input_get_utf8_str_addr"),
+        ("nmAlloc", "_shopify_function_alloc"),
+    ] {
+        writeln!(s, "def {} : List Nat := {}", lean, name_lit(text)).unwrap();
+    }
+    writeln!(s, "def glueProviderModule : List Nat := {}\n", name_lit(shopify_function_trampoline::PROVIDER_MODULE_NAME)).unwrap();
     let fam = family(&api);
     for (i, (desc, g)) in fam.iter().enumerate() {
         let wat_text = build_guest(&api, g);
@@ -478,6 +496,7 @@ struct Script {
 const MEM: usize = 65536;
 
 struct Run {
+    foreign_touched: bool,
     guest0: Vec<u8>,
     prov0: Vec<u8>,
     ret: Option<u64>,
@@ -525,11 +544,19 @@ fn run_scenario(engine: &Engine, wasm: &[u8], export: &str, args: &[u64], script
         prov.write(&mut store, *a, b)?;
     }
     let mut linker: Linker<Script> = Linker::new(engine);
+    let mut foreign: Vec<Memory> = Vec::new();
     let (imps, _) = imports_of(wasm)?;
     for (m, n, kind, sig) in &imps {
         match kind.as_str() {
             "memory" => {
-                linker.define(&mut store, m, n, prov)?;
+                if m == API_MODULE {
+                    linker.define(&mut store, m, n, prov)?;
+                } else {
+                    let fm = Memory::new(&mut store, MemoryType::new(1, None))?;
+                    fm.write(&mut store, 0, &vec![0xAAu8; MEM])?;
+                    linker.define(&mut store, m, n, fm)?;
+                    foreign.push(fm);
+                }
             }
             "func" => {
                 let ft = FuncType::new(engine, sig.params.iter().map(|p| wt(p)), sig.results.iter().map(|p| wt(p)));
@@ -569,6 +596,7 @@ fn run_scenario(engine: &Engine, wasm: &[u8], export: &str, args: &[u64], script
         None => vec![],
     };
     let prov0 = prov.data(&store)[..MEM].to_vec();
+    let foreign0: Vec<Vec<u8>> = foreign.iter().map(|fm| fm.data(&store)[..MEM].to_vec()).collect();
     let f = inst.get_func(&mut store, export).ok_or_else(|| anyhow!("no export {}", export))?;
     let ty = f.ty(&store);
     let params: Vec<Val> = ty.params().zip(args.iter()).map(|(t, v)| mk_val(&t, *v)).collect();
@@ -579,7 +607,9 @@ fn run_scenario(engine: &Engine, wasm: &[u8], export: &str, args: &[u64], script
         None => vec![],
     };
     let provb = prov.data(&store)[..MEM].to_vec();
+    let foreign_touched = foreign.iter().zip(foreign0.iter()).any(|(fm, before)| fm.data(&store)[..MEM] != before[..]);
     Ok(Run {
+        foreign_touched,
         guest0,
         prov0,
         ret: results.first().map(val_to_u64),
@@ -672,7 +702,7 @@ fn oracle(api: &ApiFn, args: &[u64], script: &Script, guest0: &[u8], prov0: &[u8
             }
         }
     }
-    Run { guest0: vec![], prov0: vec![], ret, guest, prov, calls, trap: false }
+    Run { foreign_touched: false, guest0: vec![], prov0: vec![], ret, guest, prov, calls, trap: false }
 }
 
 struct Scenario {
@@ -800,7 +830,7 @@ fn cmd_c04(seed: u64, n: u64, ops_path: &str, impl_path: &str) -> Result<()> {
         }
         let keep = rng.range(1, api.len() as u64) as usize;
         idx.truncate(keep);
-        let g = GuestSpec { apis: idx.clone(), foreign_first: rng.below(2) == 0, foreign_between: rng.below(2) == 0, own_stuff: rng.below(2) == 0, memories: 1, module_name: API_MODULE.into(), own_state: true, bad_sig: None, extra_import: None };
+        let g = GuestSpec { apis: idx.clone(), foreign_first: rng.below(2) == 0, foreign_between: rng.below(2) == 0, own_stuff: rng.below(2) == 0, memories: 1, module_name: API_MODULE.into(), own_state: true, foreign_memory: rng.below(3) == 0, bad_sig: None, extra_import: None };
         let wasm = wat::parse_str(&build_guest(&api, &g))?;
         modules.push((trampoline(&wasm)?, idx, false));
     }
@@ -817,7 +847,7 @@ fn cmd_c04(seed: u64, n: u64, ops_path: &str, impl_path: &str) -> Result<()> {
         *hist.entry(format!("fn:{}", api[k].name)).or_insert(0) += 1;
         *hist.entry(format!("path:{}", path)).or_insert(0) += 1;
         *hist.entry(format!("module:{}", if *in_family { "family" } else { "generated" })).or_insert(0) += 1;
-        let same = !run.trap && run.ret == exp.ret && run.guest == exp.guest && run.prov == exp.prov && run.calls == exp.calls;
+        let same = !run.trap && !run.foreign_touched && run.ret == exp.ret && run.guest == exp.guest && run.prov == exp.prov && run.calls == exp.calls;
         if !same {
             let short = api[k].name.strip_prefix("shopify_function_").unwrap_or("");
             let v = sc.script.resp.get("_shopify_function_output_new_utf8_str").copied().unwrap_or(0);
@@ -851,7 +881,7 @@ fn cmd_f8() -> Result<()> {
     let api = load_api()?;
     let eng = engine()?;
     let k = api.iter().position(|a| a.name == "shopify_function_output_new_utf8_str").ok_or_else(|| anyhow!("no output_new_utf8_str"))?;
-    let g = GuestSpec { apis: vec![k], foreign_first: false, foreign_between: false, own_stuff: false, memories: 1, module_name: API_MODULE.into(), own_state: false, bad_sig: None, extra_import: None };
+    let g = GuestSpec { apis: vec![k], foreign_first: false, foreign_between: false, own_stuff: false, memories: 1, module_name: API_MODULE.into(), own_state: false, foreign_memory: false, bad_sig: None, extra_import: None };
     let wasm = trampoline(&wat::parse_str(&build_guest(&api, &g))?)?;
     let mut script = Script::default();
     script.resp.insert("_shopify_function_output_new_utf8_str".into(), 4u64 << 32);
@@ -924,8 +954,8 @@ fn cmd_c07(seed: u64, n: u64, ops_path: &str, impl_path: &str) -> Result<()> {
         }
         let keep = rng.range(0, api.len() as u64) as usize;
         idx.truncate(keep);
-        let mut g = GuestSpec { apis: idx.clone(), foreign_first: rng.below(2) == 0, foreign_between: rng.below(2) == 0, own_stuff: true, memories: 1, module_name: API_MODULE.into(), own_state: true, bad_sig: None, extra_import: None };
-        let variant = i % 8;
+        let mut g = GuestSpec { apis: idx.clone(), foreign_first: rng.below(2) == 0, foreign_between: rng.below(2) == 0, own_stuff: true, memories: 1, module_name: API_MODULE.into(), own_state: true, foreign_memory: false, bad_sig: None, extra_import: None };
+        let variant = i % 9;
         let vname = match variant {
             0 | 1 => "valid",
             2 => {
@@ -961,9 +991,13 @@ fn cmd_c07(seed: u64, n: u64, ops_path: &str, impl_path: &str) -> Result<()> {
                 g.bad_sig = Some((k, s));
                 "bad-signature"
             }
-            _ => {
+            7 => {
                 g.extra_import = Some(("env".into(), "shopify_function_input_get".into()));
                 "foreign-same-name"
+            }
+            _ => {
+                g.foreign_memory = true;
+                "foreign-memory"
             }
         };
         *hist.entry(format!("variant:{}", vname)).or_insert(0) += 1;
